@@ -799,8 +799,12 @@ class World:
     def op_rename_cells(self, op):
         c = self.space(op["s"]).cells[op["c"]]
         # the renamed cells gets its source re-generated under the new name
-        self.src(self.fid_of(c._impl), op["c2"]) if self.fid_of(c._impl) != "?" else None
+        fid = self.fid_of(c._impl)
+        self.src(fid, op["c2"]) if fid != "?" else None
         c.rename(op["c2"])
+        if fid != "?":
+            # (a cells carrying a docstring keeps it: its source is not the plain rendering)
+            self.src2fid[(c.formula.source.strip(), op["c2"])] = fid
         return "ok"
 
     def op_new_space(self, op):
